@@ -17,8 +17,10 @@ TRUSTED_BASE = [
     "Lean runtime (Rat instance) for executing the Pipeline model exactly",
     "LAPACK solve (backward stable), brentq, numpy mean, SQLite AVG/SUM: compared with exact rational values within 1e-9 relative",
     "the Python harness: ground-truth generator (harness/pipeline.py), table dump, tolerances, planted-curve oracle",
+    "translator tools/gen_formulas.py: the arithmetic of the named source functions (an expression, or a whole body of assignments, if and return) as Python's own `ast` parses it -> Lean terms over the carrier class in lean/FormulaTie/Gen*.lean; that each is the model's definition is re-checked by `rfl` / a short unfolding on every run (lean/FormulaTie/*.lean)",
 ]
 SQL_TIE = ('load', 'classify', 'zeta_grid', 'rise', 'recession')
+FORMULA_TIE = ('Classify', 'Grid', 'Regrid')
 ASSUMPTIONS = [
     "records are generated from a recession curve that is piecewise linear on the sampling lattice and a constant "
     "specific yield; every storm lands on a lattice level and is followed by one light-rain step",
